@@ -6,42 +6,42 @@ open Audit
 namespace Generated.Operators
 
 def table : List OpInfo := [
-  { cls := "And", kind := .op, slots := 2, auditReaches := [true, true], drawsReaches := [true, true], rvReaches := [true, true], panelReaches := [true, true] },
-  { cls := "BelongsTo", kind := .op, slots := 1, auditReaches := [true], drawsReaches := [true], rvReaches := [true], panelReaches := [true] },
-  { cls := "Catalog", kind := .catalog, slots := 1, auditReaches := [true], drawsReaches := [true], rvReaches := [true], panelReaches := [true] },
-  { cls := "ConditionalSum", kind := .op, slots := 4, auditReaches := [true, true, true, true], drawsReaches := [true, true, true, true], rvReaches := [true, true, true, true], panelReaches := [true, true, true, true] },
-  { cls := "Derive", kind := .op, slots := 1, auditReaches := [true], drawsReaches := [true], rvReaches := [true], panelReaches := [true] },
-  { cls := "Divide", kind := .op, slots := 2, auditReaches := [true, true], drawsReaches := [true, true], rvReaches := [true, true], panelReaches := [true, true] },
-  { cls := "Elem", kind := .op, slots := 3, auditReaches := [true, true, true], drawsReaches := [true, true, true], rvReaches := [true, true, true], panelReaches := [true, true, true] },
-  { cls := "Equal", kind := .op, slots := 2, auditReaches := [true, true], drawsReaches := [true, true], rvReaches := [true, true], panelReaches := [true, true] },
-  { cls := "Greater", kind := .op, slots := 2, auditReaches := [true, true], drawsReaches := [true, true], rvReaches := [true, true], panelReaches := [true, true] },
-  { cls := "GreaterOrEqual", kind := .op, slots := 2, auditReaches := [true, true], drawsReaches := [true, true], rvReaches := [true, true], panelReaches := [true, true] },
-  { cls := "Integrate", kind := .integrate, slots := 1, auditReaches := [true], drawsReaches := [true], rvReaches := [false], panelReaches := [true] },
-  { cls := "Less", kind := .op, slots := 2, auditReaches := [true, true], drawsReaches := [true, true], rvReaches := [true, true], panelReaches := [true, true] },
-  { cls := "LessOrEqual", kind := .op, slots := 2, auditReaches := [true, true], drawsReaches := [true, true], rvReaches := [true, true], panelReaches := [true, true] },
-  { cls := "LogLogit", kind := .logLogit, slots := 5, auditReaches := [true, true, true, true, true], drawsReaches := [true, true, true, true, true], rvReaches := [true, true, true, true, true], panelReaches := [true, true, true, true, true] },
-  { cls := "Minus", kind := .op, slots := 2, auditReaches := [true, true], drawsReaches := [true, true], rvReaches := [true, true], panelReaches := [true, true] },
-  { cls := "MonteCarlo", kind := .monteCarlo, slots := 1, auditReaches := [true], drawsReaches := [false], rvReaches := [true], panelReaches := [true] },
-  { cls := "NotEqual", kind := .op, slots := 2, auditReaches := [true, true], drawsReaches := [true, true], rvReaches := [true, true], panelReaches := [true, true] },
-  { cls := "Or", kind := .op, slots := 2, auditReaches := [true, true], drawsReaches := [true, true], rvReaches := [true, true], panelReaches := [true, true] },
-  { cls := "PanelLikelihoodTrajectory", kind := .panelTraj, slots := 1, auditReaches := [true], drawsReaches := [true], rvReaches := [true], panelReaches := [false] },
-  { cls := "Plus", kind := .op, slots := 2, auditReaches := [true, true], drawsReaches := [true, true], rvReaches := [true, true], panelReaches := [true, true] },
-  { cls := "Power", kind := .op, slots := 2, auditReaches := [true, true], drawsReaches := [true, true], rvReaches := [true, true], panelReaches := [true, true] },
-  { cls := "PowerConstant", kind := .op, slots := 1, auditReaches := [true], drawsReaches := [true], rvReaches := [true], panelReaches := [true] },
-  { cls := "Times", kind := .op, slots := 2, auditReaches := [true, true], drawsReaches := [true, true], rvReaches := [true, true], panelReaches := [true, true] },
-  { cls := "UnaryMinus", kind := .op, slots := 1, auditReaches := [true], drawsReaches := [true], rvReaches := [true], panelReaches := [true] },
-  { cls := "_bioLogLogit", kind := .logLogit, slots := 5, auditReaches := [true, true, true, true, true], drawsReaches := [true, true, true, true, true], rvReaches := [true, true, true, true, true], panelReaches := [true, true, true, true, true] },
-  { cls := "_bioLogLogitFullChoiceSet", kind := .logLogit, slots := 3, auditReaches := [true, true, true], drawsReaches := [true, true, true], rvReaches := [true, true, true], panelReaches := [true, true, true] },
-  { cls := "bioLinearUtility", kind := .op, slots := 4, auditReaches := [true, true, true, true], drawsReaches := [true, true, true, true], rvReaches := [true, true, true, true], panelReaches := [true, true, true, true] },
-  { cls := "bioMax", kind := .op, slots := 2, auditReaches := [true, true], drawsReaches := [true, true], rvReaches := [true, true], panelReaches := [true, true] },
-  { cls := "bioMin", kind := .op, slots := 2, auditReaches := [true, true], drawsReaches := [true, true], rvReaches := [true, true], panelReaches := [true, true] },
-  { cls := "bioMultSum", kind := .op, slots := 3, auditReaches := [true, true, true], drawsReaches := [true, true, true], rvReaches := [true, true, true], panelReaches := [true, true, true] },
-  { cls := "bioNormalCdf", kind := .op, slots := 1, auditReaches := [true], drawsReaches := [true], rvReaches := [true], panelReaches := [true] },
-  { cls := "cos", kind := .op, slots := 1, auditReaches := [true], drawsReaches := [true], rvReaches := [true], panelReaches := [true] },
-  { cls := "exp", kind := .op, slots := 1, auditReaches := [true], drawsReaches := [true], rvReaches := [true], panelReaches := [true] },
-  { cls := "log", kind := .op, slots := 1, auditReaches := [true], drawsReaches := [true], rvReaches := [true], panelReaches := [true] },
-  { cls := "logzero", kind := .op, slots := 1, auditReaches := [true], drawsReaches := [true], rvReaches := [true], panelReaches := [true] },
-  { cls := "sin", kind := .op, slots := 1, auditReaches := [true], drawsReaches := [true], rvReaches := [true], panelReaches := [true] }
+  { cls := "And", kind := .op, slots := 2, auditReaches := [true, true], drawsReaches := [true, true], rvReaches := [true, true], panelReaches := [true, true], namesReaches := [true, true] },
+  { cls := "BelongsTo", kind := .op, slots := 1, auditReaches := [true], drawsReaches := [true], rvReaches := [true], panelReaches := [true], namesReaches := [true] },
+  { cls := "Catalog", kind := .catalog, slots := 1, auditReaches := [true], drawsReaches := [true], rvReaches := [true], panelReaches := [true], namesReaches := [true] },
+  { cls := "ConditionalSum", kind := .op, slots := 4, auditReaches := [true, true, true, true], drawsReaches := [true, true, true, true], rvReaches := [true, true, true, true], panelReaches := [true, true, true, true], namesReaches := [true, true, true, true] },
+  { cls := "Derive", kind := .op, slots := 1, auditReaches := [true], drawsReaches := [true], rvReaches := [true], panelReaches := [true], namesReaches := [true] },
+  { cls := "Divide", kind := .op, slots := 2, auditReaches := [true, true], drawsReaches := [true, true], rvReaches := [true, true], panelReaches := [true, true], namesReaches := [true, true] },
+  { cls := "Elem", kind := .op, slots := 3, auditReaches := [true, true, true], drawsReaches := [true, true, true], rvReaches := [true, true, true], panelReaches := [true, true, true], namesReaches := [true, true, true] },
+  { cls := "Equal", kind := .op, slots := 2, auditReaches := [true, true], drawsReaches := [true, true], rvReaches := [true, true], panelReaches := [true, true], namesReaches := [true, true] },
+  { cls := "Greater", kind := .op, slots := 2, auditReaches := [true, true], drawsReaches := [true, true], rvReaches := [true, true], panelReaches := [true, true], namesReaches := [true, true] },
+  { cls := "GreaterOrEqual", kind := .op, slots := 2, auditReaches := [true, true], drawsReaches := [true, true], rvReaches := [true, true], panelReaches := [true, true], namesReaches := [true, true] },
+  { cls := "Integrate", kind := .integrate, slots := 1, auditReaches := [true], drawsReaches := [true], rvReaches := [false], panelReaches := [true], namesReaches := [true] },
+  { cls := "Less", kind := .op, slots := 2, auditReaches := [true, true], drawsReaches := [true, true], rvReaches := [true, true], panelReaches := [true, true], namesReaches := [true, true] },
+  { cls := "LessOrEqual", kind := .op, slots := 2, auditReaches := [true, true], drawsReaches := [true, true], rvReaches := [true, true], panelReaches := [true, true], namesReaches := [true, true] },
+  { cls := "LogLogit", kind := .logLogit, slots := 5, auditReaches := [true, true, true, true, true], drawsReaches := [true, true, true, true, true], rvReaches := [true, true, true, true, true], panelReaches := [true, true, true, true, true], namesReaches := [true, true, true, true, true] },
+  { cls := "Minus", kind := .op, slots := 2, auditReaches := [true, true], drawsReaches := [true, true], rvReaches := [true, true], panelReaches := [true, true], namesReaches := [true, true] },
+  { cls := "MonteCarlo", kind := .monteCarlo, slots := 1, auditReaches := [true], drawsReaches := [false], rvReaches := [true], panelReaches := [true], namesReaches := [true] },
+  { cls := "NotEqual", kind := .op, slots := 2, auditReaches := [true, true], drawsReaches := [true, true], rvReaches := [true, true], panelReaches := [true, true], namesReaches := [true, true] },
+  { cls := "Or", kind := .op, slots := 2, auditReaches := [true, true], drawsReaches := [true, true], rvReaches := [true, true], panelReaches := [true, true], namesReaches := [true, true] },
+  { cls := "PanelLikelihoodTrajectory", kind := .panelTraj, slots := 1, auditReaches := [true], drawsReaches := [true], rvReaches := [true], panelReaches := [false], namesReaches := [true] },
+  { cls := "Plus", kind := .op, slots := 2, auditReaches := [true, true], drawsReaches := [true, true], rvReaches := [true, true], panelReaches := [true, true], namesReaches := [true, true] },
+  { cls := "Power", kind := .op, slots := 2, auditReaches := [true, true], drawsReaches := [true, true], rvReaches := [true, true], panelReaches := [true, true], namesReaches := [true, true] },
+  { cls := "PowerConstant", kind := .op, slots := 1, auditReaches := [true], drawsReaches := [true], rvReaches := [true], panelReaches := [true], namesReaches := [true] },
+  { cls := "Times", kind := .op, slots := 2, auditReaches := [true, true], drawsReaches := [true, true], rvReaches := [true, true], panelReaches := [true, true], namesReaches := [true, true] },
+  { cls := "UnaryMinus", kind := .op, slots := 1, auditReaches := [true], drawsReaches := [true], rvReaches := [true], panelReaches := [true], namesReaches := [true] },
+  { cls := "_bioLogLogit", kind := .logLogit, slots := 5, auditReaches := [true, true, true, true, true], drawsReaches := [true, true, true, true, true], rvReaches := [true, true, true, true, true], panelReaches := [true, true, true, true, true], namesReaches := [true, true, true, true, true] },
+  { cls := "_bioLogLogitFullChoiceSet", kind := .logLogit, slots := 3, auditReaches := [true, true, true], drawsReaches := [true, true, true], rvReaches := [true, true, true], panelReaches := [true, true, true], namesReaches := [true, true, true] },
+  { cls := "bioLinearUtility", kind := .op, slots := 4, auditReaches := [true, true, true, true], drawsReaches := [true, true, true, true], rvReaches := [true, true, true, true], panelReaches := [true, true, true, true], namesReaches := [true, true, true, true] },
+  { cls := "bioMax", kind := .op, slots := 2, auditReaches := [true, true], drawsReaches := [true, true], rvReaches := [true, true], panelReaches := [true, true], namesReaches := [true, true] },
+  { cls := "bioMin", kind := .op, slots := 2, auditReaches := [true, true], drawsReaches := [true, true], rvReaches := [true, true], panelReaches := [true, true], namesReaches := [true, true] },
+  { cls := "bioMultSum", kind := .op, slots := 3, auditReaches := [true, true, true], drawsReaches := [true, true, true], rvReaches := [true, true, true], panelReaches := [true, true, true], namesReaches := [true, true, true] },
+  { cls := "bioNormalCdf", kind := .op, slots := 1, auditReaches := [true], drawsReaches := [true], rvReaches := [true], panelReaches := [true], namesReaches := [true] },
+  { cls := "cos", kind := .op, slots := 1, auditReaches := [true], drawsReaches := [true], rvReaches := [true], panelReaches := [true], namesReaches := [true] },
+  { cls := "exp", kind := .op, slots := 1, auditReaches := [true], drawsReaches := [true], rvReaches := [true], panelReaches := [true], namesReaches := [true] },
+  { cls := "log", kind := .op, slots := 1, auditReaches := [true], drawsReaches := [true], rvReaches := [true], panelReaches := [true], namesReaches := [true] },
+  { cls := "logzero", kind := .op, slots := 1, auditReaches := [true], drawsReaches := [true], rvReaches := [true], panelReaches := [true], namesReaches := [true] },
+  { cls := "sin", kind := .op, slots := 1, auditReaches := [true], drawsReaches := [true], rvReaches := [true], panelReaches := [true], namesReaches := [true] }
 ]
 
 end Generated.Operators
